@@ -524,7 +524,11 @@ def run(case, env):
         cls = "git-directory-looks-like-copy"
     elif git and rename_plus_reuse(m_base, m_other):
         cls = "git-renamed-file-path-reused"
-    elif git and not dissimilar(case):
+    elif git and not dissimilar(case) and fam not in ("this=base",
+                                                      "other=base"):
+        # (when one side is BASE the result is the other side whatever the
+        # rename / copy inference makes of similar contents: those families
+        # are judged like any other case)
         cls = "git-similar-contents"
     elif (symlink_loop(m_base) or symlink_loop(m_this) or
           symlink_loop(m_other)):
@@ -723,8 +727,28 @@ def shape_scripts(draw, base_ops, base):
     shape = draw(st.sampled_from(["old-path-reused", "old-path-reused",
                                   "basename-in-renamed-dir",
                                   "moved-into-renamed-dir",
-                                  "subtree-added-in-renamed-dir"]))
-    if shape == "old-path-reused":
+                                  "subtree-added-in-renamed-dir",
+                                  "one-path-two-directories",
+                                  "one-path-two-directories"]))
+    if shape == "one-path-two-directories":
+        # THIS renames D away and another directory C (with a file) onto D's
+        # old path; OTHER renames a file inside C in place and adds a file
+        # under D: the path of D names different directories in the two trees
+        cands = [d for d in others if base[d]["parent"] == pD] or None
+        if cands is None:
+            need(["add", "sc-id", pD, "zc", "directory", None, False])
+            cands = ["sc-id"]
+        C = draw(st.sampled_from(sorted(cands)))
+        cfiles = [c for c in tm.children(base, C)
+                  if base[c]["kind"] == "file"]
+        if not cfiles:
+            need(["add", "scf-id", C, "zcf", "file", "in C\n", False])
+            cfiles = ["scf-id"]
+        g = draw(st.sampled_from(sorted(cfiles)))
+        pre_t = [["rename", D, pD, "zr1"], ["rename", C, pD, nD]]
+        pre_o = [["rename", g, C, "zr2"],
+                 ["add", "os1-id", D, "zn", "file", "new in D\n", False]]
+    elif shape == "old-path-reused":
         pre_t = [move_d,
                  ["add", "ts1-id", pD, nD, "directory", None, False]]
         if draw(st.booleans()):
@@ -797,6 +821,21 @@ def gen_case(draw, fmt="2a", mtypes=("merge3",)):
     elif fam == "this=base":
         do = draw_script(draw, tm.clone(base), tm.IdSource("o"), kw, 1, 5,
                          git=git, uniq=uniq)
+        files = [f for f, e in sorted(base.items())
+                 if f != tm.ROOT_ID and e["kind"] == "file" and e["content"]]
+        if git and files and draw(st.integers(0, 2)) == 0:
+            # directed: OTHER renames (or deletes) a file and adds a
+            # byte-identical copy of it in the same revision - dulwich reports
+            # a rename plus a copy; the merge result is OTHER all the same
+            f = draw(st.sampled_from(files))
+            e = base[f]
+            taken = {x["name"] for x in base.values()
+                     if x.get("parent") == e["parent"]}
+            n1, n2 = [n for n in ("cp1", "cp2", "cp3") if n not in taken][:2]
+            do = [["delete", f]] if draw(st.booleans()) else \
+                [["rename", f, e["parent"], n1]]
+            do.append(["add", "ocopy1", e["parent"], n2, "file", e["content"],
+                       e["exec"]])
     elif fam == "identical":
         dt = draw_script(draw, tm.clone(base), _ids("s", git), kw, 1, 5,
                          git=git, kindchange=not git, uniq=uniq)
